@@ -153,6 +153,11 @@ def replay_static_load(w, obligation, expects):
             (pkg / "bytecode_src.py").write_text(f"open({str(marker)!r}, 'a').write('pyc')\n")
             py_compile.compile(str(pkg / "bytecode_src.py"), cfile=str(pkg / "sourceless.pyc"))
             (pkg / "bytecode_src.py").unlink()
+            # an external top-level module that exists only as byte code, reached through an alias: resolving external aliases must not import it either
+            (Path(tmp) / "c15ext_src.py").write_text(f"open({str(marker)!r}, 'a').write('ext')\ny = 2\n")
+            py_compile.compile(str(Path(tmp) / "c15ext_src.py"), cfile=str(Path(tmp) / "c15ext.pyc"))
+            (Path(tmp) / "c15ext_src.py").unlink()
+            (pkg / "sub.py").write_text(f"open({str(marker)!r}, 'a').write('sub')\nx = 1\nfrom c15ext import y\n")
             ld = _static_loader(search_paths=[tmp])
             try:
                 mod = ld.load("c15pkg")
